@@ -1122,7 +1122,7 @@ class GeneralizedTime(VisibleString):
 class Date(Type):
 
     def __init__(self, name):
-        super(Date, self).__init__(name, 'DATE', None)
+        super(Date, self).__init__(name, 'DATE', Tag.DATE)
         year = Integer('year')
         month = Integer('month')
         day = Integer('day')
@@ -1152,7 +1152,7 @@ class Date(Type):
 class TimeOfDay(Type):
 
     def __init__(self, name):
-        super(TimeOfDay, self).__init__(name, 'TIME-OF-DAY', None)
+        super(TimeOfDay, self).__init__(name, 'TIME-OF-DAY', Tag.TIME_OF_DAY)
         hours = Integer('hours')
         minutes = Integer('minutes')
         seconds = Integer('seconds')
@@ -1183,7 +1183,7 @@ class TimeOfDay(Type):
 class DateTime(Type):
 
     def __init__(self, name):
-        super(DateTime, self).__init__(name, 'DATE-TIME', None)
+        super(DateTime, self).__init__(name, 'DATE-TIME', Tag.DATE_TIME)
         self._date = Date('date')
         self._time = TimeOfDay('time')
 
